@@ -30,6 +30,10 @@ def handle (args : List String) : Option String :=
         (match firstElem cfg toks with
          | some (n, as, body) => some (muxEffective (mode == "r") cfg n as body p)
          | none => some p)
+      else if mode == "q" then
+        (match firstElem cfg toks with
+         | some (n, as, body) => some (muxAnswering cfg n as body)
+         | none => some p)
       else none
     let o := serve cfg toks [eff]
     pure s!"{encWritten o.written} {encStop o.result}"
